@@ -203,8 +203,12 @@ def run_ras(res, h, rng, n):
     ops += [gen_ras(rng) for _ in range(n)] + [gen_ras(rng, wild=True) for _ in range(n // 5)]
     impl, rc, err = vlib.run_lines([str(h)], ops)
     if rc != 0 or len(impl) != len(ops):
-        res.violation("harness aborted on RAStackAllocator ops rc=%s: %s" % (rc, err[-1200:]), {"ops": ops[:20], "stderr": err[-3000:]}, True,
-                      key="harness-abort")
+        def crashes(c):
+            o, r, _ = vlib.run_lines([str(h)], c)
+            return r != 0 or len(o) != len(c)
+        small = vlib.ddmin(ops, crashes, max_tests=60) if crashes(ops) else ops[:5]
+        res.violation("harness aborted / timed out on RAStackAllocator ops rc=%s: %s" % (rc, err[-1200:]), {"ops": small, "stderr": err[-3000:]},
+                      True, key="harness-abort")
         return
     m1, m2, idx = [], [], []
     for i, (o, a) in enumerate(zip(ops, impl)):
@@ -219,19 +223,25 @@ def run_ras(res, h, rng, n):
     if len(o1) != len(idx) or len(o2) != len(idx):
         res.violation("driver protocol failure on RAStackAllocator ops", {}, False, key="protocol")
         return
+    if len(idx) < len(ops) // 2:
+        res.violation("empty / degenerate RAStackAllocator run: %d ops, %d accepted" % (len(ops), len(idx)), {"ops_head": ops[:10]}, False,
+                      key="empty-run")
+        return
     asc = 0
+    seen_bad = seen_corr = False
     for k, i in enumerate(idx):
         ws = [int(t.split(":")[1]) for t in impl[i].split()[3:]]
         asc += ws == sorted(ws)
         judgeable = all(int(t.split(":")[1]) in (1, 2, 4, 8, 16, 32, 64) and int(t.split(":")[0]) > 0 for t in ops[i][4:].split(",")) if ops[i] != "ras -" else True
-        if o2[k] != "good" and judgeable:
+        is_bad = o2[k] != "good" and judgeable
+        if is_bad and not seen_bad:
+            seen_bad = True
             res.violation("RAStackAllocator slot layout violates C07 (hand-over) on %r: monitor says %s; implementation answered %s"
                           % (ops[i], o2[k], impl[i][:500]), {"ops": [ops[i]], "monitor": o2[k]}, True, key="rastack:" + o2[k].split()[1])
-            break
-        if o1[k] != impl[i]:
+        if o1[k] != impl[i] and not is_bad and not seen_corr:
+            seen_corr = True
             res.violation("correspondence RAStack model/implementation differs at %r: impl=%s model=%s" % (ops[i], impl[i][:400], o1[k][:400]),
                           {"ops": [ops[i]], "impl": impl[i], "model": o1[k], "unchecked": "Model/RAStack.lean ~ rastack.cpp"}, False, key="corr-rastack")
-            break
     res.coverage["rastack"] = {"ops": len(ops), "judged": len(idx), "sorted_ascending_by_weight": asc,
                                "note": "the comparator of step 2 sorts ascending although the comments say descending (layout quality only)"}
     res.coverage["evaluations"] += len(ops)
@@ -290,7 +300,11 @@ def known_key(op, impl_line, reason):
         f = impl_line[3:].split(" | ")[0].split()
         min_dyn, final = int(f[7]), int(f[10])
         fp_sa = int(f[3]) == 29 and (int(f[1]) & 0x10)        # the preserved frame pointer as SA register is supported (C07-7)
-        if final >= min_dyn or (int(f[3]) != int(f[2]) and not fp_sa):
+        # exactly the symptoms of the open finding; any other verdict on such a frame keeps its own key and is reported
+        head = reason.split()[0] if reason else ""
+        if final >= min_dyn and head == "body-sp-misaligned":
+            return KNOWN_KEY_A64_DA
+        if (final >= min_dyn or (int(f[3]) != int(f[2]) and not fp_sa)) and head == "stack-args-misplaced":
             return KNOWN_KEY_A64_DA
     return "frame:%s:%s" % (reason.split()[0] if reason else "?", ARCHN[arch])
 
@@ -428,6 +442,11 @@ def run(res):
                 mon[i] = "BAD update_func_frame " + why.replace(" ", "-")
     bad = [(i, mon[i]) for i in range(len(ops)) if mon[i] is not None and mon[i].startswith("BAD")]
     diffs = [i for i in range(len(ops)) if impl[i] != model[i]]
+    n_ok = sum(1 for r in impl if r.startswith("ok "))
+    n_judged = sum(1 for m in mon if m is not None)
+    if not ops or n_ok < len(ops) // 2 or n_judged < len(ops) // 4:
+        res.violation("empty / degenerate run: %d ops, %d accepted by the real code, %d judged by the monitor" % (len(ops), n_ok, n_judged),
+                      {"ops_head": ops[:10], "impl_head": impl[:10]}, False, key="empty-run")
     judged = sum(1 for m in mon if m is not None)
     kinds = {}
     for o, r, m in zip(ops, impl, mon):
@@ -486,18 +505,19 @@ def run(res):
         res.violation("real prolog/epilog violates C07 on frame %r: monitor says %s (%d such frames in this run); implementation answered %s"
                       % (small, m, cnt, (si[0] if si else "?")[:700]),
                       {"ops": [small], "monitor": m, "original_op": ops[i]}, True, key=key)
-    # frames of the open finding's class do not hide a broken correspondence / obligation
-    bad = [(i, m) for i, m in bad if known_key(ops[i], impl[i], m[4:]) != KNOWN_KEY_A64_DA]
-    if not bad and diffs:
-        i = diffs[0]
-        res.violation("correspondence model/implementation differs at %r: impl=%s model=%s (%d differing ops); the property predicate holds on "
-                      "every explored frame" % (ops[i], impl[i][:500], model[i][:500], len(diffs)),
+    # A correspondence difference is reported unless a violation that is NOT the open finding already explains the same op;
+    # a broken obligation is always reported.
+    explained = {i for i, m in bad if known_key(ops[i], impl[i], m[4:]) != KNOWN_KEY_A64_DA}
+    unexplained = [i for i in diffs if i not in explained]
+    if unexplained:
+        i = unexplained[0]
+        res.violation("correspondence model/implementation differs at %r: impl=%s model=%s (%d differing ops, %d of them not explained by a "
+                      "reported violation); the property predicate holds on these frames"
+                      % (ops[i], impl[i][:500], model[i][:500], len(diffs), len(unexplained)),
                       {"ops": [ops[i]], "impl": impl[i], "model": model[i], "unchecked": "correspondence Model/Frame.lean ~ func.cpp / *emithelper.cpp"},
                       False, key="corr")
-    elif not bad and broken:
+    if broken:
         res.violation("proof obligation no longer checks: " + " | ".join(broken)[:1500], {"unchecked": broken}, False, key="obligation")
-    elif bad and (diffs or broken):
-        res.notes.append("%d ops differ between model and implementation; %d broken obligations" % (len(diffs), len(broken)))
 
 
 def replay(data):
